@@ -693,6 +693,10 @@ def p15_interval_loops(ctx):
             r.bad("storage::bitcask::merge_on_interval", "Uniform::new (exclusive range) for the sleep period", where(mb, bb), "Uniform::new asserts low < high and panics when check_jitter is 0.0 (documented minimum): the merge task dies and no merge ever runs")
         for _, bb, t in calls_in([mb], "rand::distributions::Uniform::new_inclusive", "rand::distributions::uniform::Uniform::new_inclusive"):
             r.ok("storage::bitcask::merge_on_interval", "Uniform::new_inclusive accepts a zero-width jitter range", where(mb, bb))
+        for _, bb, t in calls_in([mb], "rand::Rng::gen_range", "rand::rng::Rng::gen_range"):
+            tys = " ".join((t.get("callee_args") or []) + (t.get("arg_tys") or []))
+            incl = "RangeInclusive" in tys
+            r.add("storage::bitcask::merge_on_interval", "gen_range over an inclusive range for the sleep period", incl, where(mb, bb), "" if incl else "gen_range(low..high) panics on an empty range: with check_jitter = 0.0 (documented minimum) low == high, the merge task dies and no merge ever runs")
     # sync loop only under IntervalMs, using its payload as the period
     b = _body_with(prog.family("storage::bitcask::sync_on_interval"), "tokio::time::sleep")
     if b is not None:
